@@ -21,11 +21,11 @@ RULE = ("(A) Delta(name, point, log_density) with number / batched tensor / lazy
         "Delta added to a funsor and reduced, or integrated against it; (C) discrete tensors over 1-3 inputs of sizes 1-4 incl. -inf entries, "
         "every non-empty subset of sampled variables, 0-2 sample inputs, several seeds: inputs/output, range and support of points, mass "
         "identity per batch element and particle, reproducibility under re-seeding; (D) full-rank Gaussians: eager samples (mass identity vs "
-        "closed-form marginal) and reparametrised samples (affine in noise, mean and covariance). A case is (part, structure, sampled set, "
+        "closed-form marginal), mixtures (logits + Gaussian) sampled over all reals and a subset of integer inputs, and reparametrised samples (affine in noise, mean and covariance). A case is (part, structure, sampled set, "
         "sample inputs, seed); non-trivial when a mass/affine identity was checked on >=2 elements; distinct by that tuple + data hash")
 ASSUMPTIONS = ["numpy global RNG is the numpy backend's only random state", "non-unit-mass Deltas are used for point evaluation only"]
 MIN_NONTRIVIAL = {"quick": 3000, "thorough": 30000}
-REQUIRED_COUNTERS = ["delta-point:ok", "delta-reduce:ok", "delta-integrate:ok", "delta-integrate-weighted:ok", "tensor-sample:mass-ok", "tensor-sample:reseed-ok", "gaussian-sample:mass-ok", "gaussian-reparam:affine-ok"]
+REQUIRED_COUNTERS = ["delta-point:ok", "delta-reduce:ok", "delta-integrate:ok", "delta-integrate-weighted:ok", "tensor-sample:mass-ok", "tensor-sample:reseed-ok", "gaussian-sample:mass-ok", "gaussian-reparam:affine-ok", "mixture-sample:mass-ok"]
 
 
 def plan(tier, seed):
@@ -37,7 +37,7 @@ def run_shard(shard, res):
     rng = shard_rng(shard["seed"], ID, shard["name"])
     riders = Riders(res)
     for i in range(shard["n"]):
-        for part in (part_delta, part_tensor_sample, part_gaussian_sample):
+        for part in (part_delta, part_tensor_sample, part_gaussian_sample, part_mixture_sample):
             try:
                 part(rng, res, riders, i)
             finally:
@@ -341,6 +341,83 @@ def part_tensor_sample(rng, res, riders, i):
 
 
 # ---------------------------------------------------------------------------
+def part_mixture_sample(rng, res, riders, i):
+    """a mixture (logits over the integer inputs + Gaussian) sampled jointly over all its real inputs and a subset of its integer
+    inputs (size-1 inputs included): signature and per-particle mass identity against the dense closed form"""
+    import funsor
+    from funsor import ops
+    from funsor.domains import Bint
+    from funsor.tensor import Tensor
+
+    from ..build import to_domain
+
+    spec = random_gaussian(rng, full_rank=True, param="white_vec+prec_sqrt")
+    d = spec.dense
+    inputs = spec.inputs
+    reals = [k for k, dm in inputs.items() if dm[0] == "real"]
+    ints = [k for k, dm in inputs.items() if dm[0] != "real"]
+    if not ints:
+        return
+    try:
+        g = spec.build()
+    except Exception as e:
+        res.count("mixture-sample:construct-declined:%s" % type(e).__name__)
+        return
+    riders.before(list(spec.kwargs.values()))
+    logits = np.round(rng.uniform(-1, 1, size=tuple(inputs[k][0] for k in ints)), 2)
+    riders.before(logits)
+    m = Tensor(logits, OrderedDict((k, Bint[inputs[k][0]]) for k in ints)) + g
+    subsets = [c for r in range(0, len(ints) + 1) for c in itertools.combinations(ints, r)]
+    I = subsets[int(rng.integers(len(subsets)))]
+    S = tuple(reals) + tuple(I)
+    si = OrderedDict((n, Bint[int(rng.integers(1, 4))]) for n in ["p", "q"][: int(rng.integers(0, 3))])
+    seed = int(rng.integers(1 << 30))
+    desc = "mixture[%s; %s].sample(%s, %s) seed=%d" % (spec.label, ",".join("%s:%s" % (k, "R%s" % list(dm[1]) if dm[0] == "real" else "b%d" % dm[0]) for k, dm in inputs.items()),
+                                                       list(S), {k: v.size for k, v in si.items()}, seed)
+    case = {"label": spec.label, "inputs": {k: list(map(str, v)) for k, v in inputs.items()}, "kwargs": spec.kwargs, "logits": logits, "sampled": list(S)}
+    try:
+        np.random.seed(seed)
+        with np.errstate(all="ignore"):
+            smp = m.sample(frozenset(S), si)
+    except Exception as e:
+        res.count("mixture-sample:declined:%s" % type(e).__name__)
+        return
+    riders.hold(smp)
+    want_inputs = {k: str(to_domain(dm)) for k, dm in inputs.items()}
+    want_inputs.update({k: str(v) for k, v in si.items()})
+    if {k: str(v) for k, v in smp.inputs.items()} != want_inputs:
+        res.violation("sample:mixture-type", "sample inputs %s, expected %s | %s" % ({k: str(v) for k, v in smp.inputs.items()}, want_inputs, desc), case=case)
+        return
+    deltas, _rest = sample_structure(smp)
+    if set(deltas) != set(S):
+        res.violation("sample:mixture-structure", "sample binds %s, expected %s | %s" % (sorted(deltas), sorted(S), desc), case=case)
+        return
+    try:
+        with np.errstate(all="ignore"):
+            red = funsor.to_funsor(smp.reduce(ops.logaddexp, frozenset(S)))
+        kept_ints = [k for k in ints if k not in I]
+        bad = None
+        for _ in range(4):
+            env = {k: int(rng.integers(inputs[k][0])) for k in kept_ints}
+            for k, v in si.items():
+                env[k] = int(rng.integers(v.size))
+            vals = []
+            for pt in itertools.product(*[range(inputs[k][0]) for k in I]):
+                ie = {**{k: env[k] for k in kept_ints}, **dict(zip(I, pt))}
+                vals.append(float(logits[tuple(ie[k] for k in ints)]) + d.log_normalizer(ie))
+            want = float(scipy.special.logsumexp(vals))
+            got = val(red, {k: env[k] for k in red.inputs})
+            if not close(got, want, rtol=1e-5, atol=1e-7):
+                bad = "mass of the sample over %s at %s is %s, closed form is %s" % (list(S), env, got, want)
+                break
+        if bad:
+            res.violation("sample:mixture-mass", "%s | %s" % (bad, desc), case=case)
+        else:
+            res.count("mixture-sample:mass-ok")
+    except Exception as e:
+        res.count("mixture-sample:undecided:%s" % type(e).__name__)
+
+
 def part_gaussian_sample(rng, res, riders, i):
     import funsor
     from funsor import ops
